@@ -352,6 +352,7 @@ type Snap struct {
 
 func (s *Sandbox) Snapshot() *Snap {
 	sn := &Snap{Root: s.Root, Files: map[string][]byte{}, Dirs: map[string]bool{}, Odd: map[string]string{}}
+	firstOfInode := map[[2]uint64]string{}
 	for _, top := range []string{"w", "home"} {
 		base := filepath.Join(s.Root, top)
 		filepath.Walk(base, func(p string, fi os.FileInfo, err error) error {
@@ -368,6 +369,15 @@ func (s *Sandbox) Snapshot() *Snap {
 					sn.Odd[rel] = "unreadable: " + err.Error()
 				} else {
 					sn.Files[rel] = b
+				}
+				// two names of one file (hard links): part of the state, a write through one name changes the other
+				if st, ok := fi.Sys().(*syscall.Stat_t); ok && st.Nlink > 1 {
+					k := [2]uint64{uint64(st.Dev), st.Ino}
+					if first, seen := firstOfInode[k]; seen {
+						sn.Odd[rel] = "hardlink = " + first
+					} else {
+						firstOfInode[k] = rel
+					}
 				}
 			case fi.Mode()&os.ModeSymlink != 0:
 				t, _ := os.Readlink(p)
@@ -472,7 +482,7 @@ func (s *Sandbox) Restore(sn *Snap) error {
 		}
 	}
 	for f, b := range sn.Files {
-		if strings.HasPrefix(sn.Odd[f], "symlink -> ") {
+		if strings.HasPrefix(sn.Odd[f], "symlink -> ") || strings.HasPrefix(sn.Odd[f], "hardlink = ") {
 			continue // the bytes behind a link are restored under the name of the file the link names
 		}
 		p := filepath.Join(s.Root, f)
@@ -484,6 +494,13 @@ func (s *Sandbox) Restore(sn *Snap) error {
 		}
 	}
 	for f, what := range sn.Odd {
+		if t, ok := strings.CutPrefix(what, "hardlink = "); ok {
+			p := filepath.Join(s.Root, f)
+			os.MkdirAll(filepath.Dir(p), 0o777)
+			if err := os.Link(filepath.Join(s.Root, t), p); err != nil {
+				return err
+			}
+		}
 		if t, ok := strings.CutPrefix(what, "symlink -> "); ok {
 			p := filepath.Join(s.Root, f)
 			os.MkdirAll(filepath.Dir(p), 0o777)
